@@ -132,6 +132,39 @@ def run(ctx):
                   "%s::check() consults the environment on a path where a command-line value may have been given (`%s` is not established): "
                   "the environment can override the command line" % (k, logic.show(ng)), (f, n.get("ln")),
                   detail={"facts": [logic.show(x) for x in (before.get((bid, i)) or [])]})
+        # --- R03.10 (liveness of the second rank): whenever nothing was given on the command line and a variable is bound, check() asks
+        # the environment - no way through the function (to a return or to the 'missing value' raise) avoids the lookup under those two conditions
+        ctx.rule("R03.10", "check() consults the environment on every path where the option was not given and a variable is bound (no further condition - optional, no default - in front of the lookup)")
+        ends = [f.exit] + [b for b in f.reachable_blocks() if f.is_noreturn(b)]
+        nwo = 0
+        seen_paths = set()
+        for endb in ends:
+            try:
+                paths = cfg.acyclic_paths(f, f.entry, endb)
+            except RuntimeError:
+                ctx.broken("R03.10", f, "env-consulted-whenever-bound", "too many paths through check()", f)
+                continue
+            for path in paths:
+                key = tuple(b for b, _ in path)
+                if key in seen_paths or bid in key:
+                    continue
+                if endb == f.exit and any(f.is_noreturn(b) for b in key):
+                    continue
+                seen_paths.add(key)
+                conds = [ng, has_env]
+                for (b, lab) in path:
+                    c = f.term(b).get("cond")
+                    if c is None or lab not in ("true", "false"):
+                        continue
+                    t = lg.truthy(c, {}, 0)
+                    conds.append(t if lab == "true" else Not(t))
+                sat = logic.satisfiable(conds, lg.axioms)
+                nwo += 1
+                ctx.check(not sat, "R03.10", f, "env-consulted-whenever-bound:B%s" % "-".join(map(str, key)),
+                          "%s::check() can finish along blocks %s without asking the environment although the option was not given and a variable is bound (condition: %s): "
+                          "a set variable is ignored there - the option stays absent / gets its default / is reported missing, and the usage text still advertises the variable"
+                          % (k, "->".join("B%s" % b for b in key), " && ".join(logic.show(c) for c in conds[2:])[:300]), f, why_ok="infeasible when not given and a variable is bound")
+        ctx.need("R03.10", "lookup-free paths through %s::check" % k, nwo, 1)
         # --- R03.2: uses of the env value
         if env_local is None:
             ctx.broken("R03.2", f, "env-local", "the env::get result is not kept in a local: idiom not recognised", (f, n.get("ln")))
@@ -317,6 +350,22 @@ def run(ctx):
             ctx.check(okc, "R03.5", f, "env-verbatim",
                       "the value stored from the environment at line %s is not a verbatim copy of the variable: %s" % (e3.get("ln"), why),
                       (f, e3.get("ln")), why_ok=fmt(target))
+    # ---- R03.11 who-may-consult-the-environment: the ranking is decided in one place per kind, after the tokens were applied. Any other
+    # function of the options code that reads the environment (or interprets a toggle word) does so without knowing what the command line gave
+    ctx.rule("R03.11", "who-may-call: on the options path nitro::env::get and toggle::parse_env_value are called from the three check() functions only (where `not given` is known) - a pass that "
+                       "reads the variables before the tokens are applied judges the environment although the command line outranks it")
+    allowed_callers = {NS + k + "::check" for k in KINDS}
+    ncallers = 0
+    for target in sorted(t for t in cg.redges if t.startswith(ENV_GET + "(") or t.startswith(NS + "toggle::parse_env_value(")):
+        for c in sorted(cg.callers(target)):
+            cf = prog.fn(c)
+            if cf is None or not cf.file.startswith("/repo/") or "/options/" not in cf.file:
+                continue
+            ncallers += 1
+            ctx.check(cf.qual in allowed_callers, "R03.11", cf, "consults-environment:%s->%s" % (short(cf.qual), short(target.split("(")[0])),
+                      "%s calls %s: outside the check() functions nothing knows whether the option was given on the command line - a given toggle or option is then judged by (or "
+                      "refused for) its environment variable" % (short(cf.qual), short(target.split("(")[0])), cf, why_ok="a check() function")
+    ctx.need("R03.11", "callers of env::get / parse_env_value in the options code", ncallers, 4)
     ctx.need("R03.1", "check() functions", nchecks, 3)
     ctx.need("R03.1", "environment lookups", nenv, 3)
 
